@@ -53,13 +53,11 @@ theorem NoB1.enterB2 (cfg : Cfg) (t : Req) (a : Asm) (ha : a.payload ≠ []) :
       exact ha (List.eq_nil_of_length_eq_zero hlen)
 
 theorem payload_ne_nil_of_valid {b : BlockOpt} {pl : Bytes} (hm : b.more = true)
-    (hv : b.validFor pl.length = true) : pl ≠ [] := by
+    (hv : b.okFor pl.length = true) : pl ≠ [] := by
   intro h
-  have := validFor_more hm hv
-  have hp := b.size_pos
+  have := (okFor_more hm hv).1
   rw [h] at this
   simp at this
-  omega
 
 theorem NoB1.completeBlock2 (cfg : Cfg) (t : Req) (r : Resp) : NoB1 (completeBlock2 cfg t r) := by
   cases hb : r.block2 with
@@ -75,7 +73,7 @@ theorem NoB1.completeBlock2 (cfg : Cfg) (t : Req) (r : Resp) : NoB1 (completeBlo
     by_cases hm : b.more = true
     · by_cases hn : b.num ≠ 0
       · simp [hm, hn, NoB1]
-      · by_cases hv : b.validFor r.payload.length = true
+      · by_cases hv : b.okFor r.payload.length = true
         · simp only [hm, Bool.not_true, Bool.false_eq_true, ↓reduceIte, hn, hv]
           exact NoB1.enterB2 _ _ _ (payload_ne_nil_of_valid hm hv)
         · simp [hm, hn, hv, NoB1]
@@ -117,8 +115,8 @@ sent and the loop continues from the (reduced) next state -/
 theorem step_b1_cases (cfg : Cfg) (st : B1State) (cur : Req) (r : Resp) :
     NoB1 (step cfg (.b1 st cur) r) ∨
     ((sentBlock1 st cur).more = true ∧ ∃ t,
-      step cfg (.b1 st cur) r = enterB1 cfg { szx := (reduce t st.szx (st.cursor + 1)).1,
-                                               cursor := (reduce t st.szx (st.cursor + 1)).2 }) := by
+      step cfg (.b1 st cur) r = enterB1 cfg { szx := (reduceB t st.szx (advance st cur)).1,
+                                               cursor := (reduceB t st.szx (advance st cur)).2 }) := by
   cases ha : r.block1 with
   | none =>
     left
@@ -149,42 +147,53 @@ theorem step_b1_cases (cfg : Cfg) (st : B1State) (cur : Req) (r : Resp) :
 
 /-- `reqs` cuts `p` in order starting at byte `off`, with size exponents bounded by `s` and
 never growing: each request carries the Block2 option `hb` of the application's request and
-`p[off, off + size)`, is numbered `off / size`, has the more
+`p[off, off + n)` -- `n` one block, or (BERT) a positive whole number of KiB --, is numbered
+`off / size` (`size` = 1024 for BERT), starts inside `p` (or is block 0 of an EMPTY `p`: a request
+with the Block1 size hint and no payload), has the more
 flag iff bytes remain after it, and nothing follows a block without the more flag. -/
 inductive Cut (p : Bytes) (hb : Option BlockOpt) : Nat → Nat → List Req → Prop
   | nil (off s : Nat) : Cut p hb off s []
   | whole (s : Nat) : Cut p hb 0 s [{ block1 := none, block2 := hb, size1 := none, payload := p }]
-  | block {off s : Nat} {b : BlockOpt} {sz1 : Option Nat} {rest : List Req} :
-      b.szx ≤ s → b.szx ≤ 6 → b.num * blockSize b.szx = off → off < p.length →
-      (b.more = true ↔ off + blockSize b.szx < p.length) →
+  | block {off s n : Nat} {b : BlockOpt} {sz1 : Option Nat} {rest : List Req} :
+      b.szx ≤ s → b.szx ≤ 7 → BlkLen b.szx n → b.num * b.size = off →
+      (off < p.length ∨ (off = 0 ∧ p.length = 0)) →
+      (b.more = true ↔ off + n < p.length) →
       (b.more = false → rest = []) →
-      Cut p hb (off + blockSize b.szx) b.szx rest →
+      Cut p hb (off + n) b.szx rest →
       Cut p hb off s ({ block1 := some b, block2 := hb, size1 := sz1,
-                        payload := (p.drop off).take (blockSize b.szx) } :: rest)
+                        payload := (p.drop off).take n } :: rest)
 
 theorem Cut.weaken {p : Bytes} {off s s' : Nat} {hb : Option BlockOpt} {reqs : List Req} (h : Cut p hb off s reqs)
     (hs : s ≤ s') : Cut p hb off s' reqs := by
   cases h with
   | nil => exact Cut.nil _ _
   | whole => exact Cut.whole _
-  | block h1 h2 h3 h4 h5 h6 h7 => exact Cut.block (by omega) h2 h3 h4 h5 h6 h7
+  | block h1 h2 h3 h4 h5 h6 h7 h8 => exact Cut.block (by omega) h2 h3 h4 h5 h6 h7 h8
+
+theorem inside_off {cfg : Cfg} {st : B1State} (hinv : B1Inv cfg st) (hf : fragmented cfg st.szx = true) :
+    st.cursor * unit st.szx < cfg.payload.length ∨
+      (st.cursor * unit st.szx = 0 ∧ cfg.payload.length = 0) := by
+  rcases hinv.inside hf with h | ⟨h0, hl⟩
+  · exact Or.inl h
+  · exact Or.inr ⟨by rw [h0, Nat.zero_mul], hl⟩
 
 /-- **The Block1 requests emitted against any response sequence are an in-order cut.** -/
 theorem cut_go {cfg : Cfg} {st : B1State} {cur : Req} (hinv : B1Inv cfg st)
     (hcur : nextRequest cfg st = some cur) (rs : List Resp) :
-    Cut cfg.payload (hintOpt cfg) (st.cursor * blockSize st.szx) st.szx (b1Reqs (go cfg (.b1 st cur) rs).1) := by
+    Cut cfg.payload (hintOpt cfg) (st.cursor * unit st.szx) st.szx (b1Reqs (go cfg (.b1 st cur) rs).1) := by
   induction rs generalizing st cur with
   | nil =>
     rw [go_nil]
     rw [nextRequest_eq hinv] at hcur
-    by_cases hf : cfg.payload.length > threshold cfg st.szx
-    · simp only [hf, ↓reduceIte, Option.some.injEq] at hcur
+    obtain ⟨_, _, _, hlen⟩ := blk_spec (mp := cfg.maxPayload) hinv.szx_le hinv.bert
+    by_cases hf : fragmented cfg st.szx = true
+    · simp only [hf, Bool.false_eq_true, ↓reduceIte, Option.some.injEq] at hcur
       subst hcur
       simp only [Phase.outstanding, Option.toList_some, b1Reqs, List.filter_cons, isB1Phase_mk_hint,
         ↓reduceIte, List.filter_nil]
-      exact Cut.block (Nat.le_refl _) hinv.szx_le rfl (hinv.inside hf) (by simp) (fun _ => rfl)
+      exact Cut.block (Nat.le_refl _) hinv.szx_le hlen rfl (inside_off hinv hf) (by simp) (fun _ => rfl)
         (Cut.nil _ _)
-    · simp only [hf, ↓reduceIte, Option.some.injEq] at hcur
+    · simp only [hf, Bool.false_eq_true, ↓reduceIte, Option.some.injEq] at hcur
       subst hcur
       rw [hinv.whole hf]
       simp only [Phase.outstanding, Option.toList_some, b1Reqs, List.filter_cons, isB1Phase_mk_hint,
@@ -192,19 +201,30 @@ theorem cut_go {cfg : Cfg} {st : B1State} {cur : Req} (hinv : B1Inv cfg st)
       exact Cut.whole _
   | cons r rs ih =>
     rw [go_cons]
+    have hcur0 := hcur
+    have hfacts := (b1_cur_facts hinv hcur0).2
     rw [nextRequest_eq hinv] at hcur
+    obtain ⟨_, _, _, hlen⟩ := blk_spec (mp := cfg.maxPayload) hinv.szx_le hinv.bert
     have hcases := step_b1_cases cfg st cur r
-    by_cases hf : cfg.payload.length > threshold cfg st.szx
-    · simp only [hf, ↓reduceIte, Option.some.injEq] at hcur
+    by_cases hf : fragmented cfg st.szx = true
+    · simp only [hf, Bool.false_eq_true, ↓reduceIte, Option.some.injEq] at hcur
       have hsent : (sentBlock1 st cur).more
-          = decide (st.cursor * blockSize st.szx + blockSize st.szx < cfg.payload.length) := by
+          = decide (st.cursor * unit st.szx + blk cfg.maxPayload st.szx < cfg.payload.length) := by
         rw [← hcur]; rfl
-      rw [hsent] at hcases
-      simp only [decide_eq_true_eq] at hcases
+      have hnextinv : ∀ t, (sentBlock1 st cur).more = true →
+          B1Inv cfg { szx := (reduceB t st.szx (advance st cur)).1,
+                      cursor := (reduceB t st.szx (advance st cur)).2 } :=
+        fun t hsm => B1Inv.next hinv hcur0 hsm t
+      have hadv : (sentBlock1 st cur).more = true →
+          advance st cur * unit st.szx = st.cursor * unit st.szx + blk cfg.maxPayload st.szx :=
+        fun hsm => (hfacts hsm).2.2
+      rw [hsent] at hcases hnextinv hadv
+      simp only [decide_eq_true_eq] at hcases hnextinv hadv
+      generalize advance st cur = adv at hcases hnextinv hadv
       subst hcur
       simp only [Phase.outstanding, Option.toList_some, b1Reqs, List.cons_append, List.nil_append,
         List.filter_cons, isB1Phase_mk_hint, ↓reduceIte]
-      refine Cut.block (Nat.le_refl _) hinv.szx_le rfl (hinv.inside hf) (by simp) ?_ ?_
+      refine Cut.block (Nat.le_refl _) hinv.szx_le hlen rfl (inside_off hinv hf) (by simp) ?_ ?_
       · intro hm
         simp only [decide_eq_false_iff_not] at hm
         rcases hcases with h | ⟨h, _⟩
@@ -214,14 +234,14 @@ theorem cut_go {cfg : Cfg} {st : B1State} {cur : Req} (hinv : B1Inv cfg st)
         · have := h.go (cfg := cfg) rs
           simp only [b1Reqs] at this
           rw [this]; exact Cut.nil _ _
-        · have hnext := B1Inv.next hinv hf h t
+        · have hnext := hnextinv t h
           obtain ⟨cur', hc1, hc2⟩ := enterB1_of_inv hnext
           rw [ht, hc2]
           have := ih hnext hc1
           simp only [b1Reqs] at this
-          rw [reduce_offset, Nat.add_mul, Nat.one_mul] at this
-          exact this.weaken (by rw [reduce_szx]; exact Nat.min_le_right _ _)
-    · simp only [hf, ↓reduceIte, Option.some.injEq] at hcur
+          rw [reduceB_offset _ hinv.szx_le, hadv h] at this
+          exact this.weaken (by rw [reduceB_szx _ hinv.szx_le]; exact Nat.min_le_right _ _)
+    · simp only [hf, Bool.false_eq_true, ↓reduceIte, Option.some.injEq] at hcur
       have hsent : (sentBlock1 st cur).more = false := by rw [← hcur]; rfl
       rw [hsent] at hcases
       subst hcur
@@ -240,6 +260,28 @@ theorem take_append_slice (p : Bytes) (off n : Nat) :
     p.take off ++ (p.drop off).take n = p.take (off + n) := by
   rw [List.take_add]
 
+/-- the bytes a block of a cut carries: exactly `n` of them while more follow -/
+theorem slice_len {p : Bytes} {off n : Nat} (h : off + n < p.length) :
+    ((p.drop off).take n).length = n := by
+  rw [List.length_take, List.length_drop]; omega
+
+/-- one round of the reference reassembly on a block of a cut -/
+theorem goR_block {p : Bytes} {off n : Nat} {b : BlockOpt} {hb : Option BlockOpt} {sz1 : Option Nat}
+    {rest : List Req} (hoff : off ≤ p.length) (h2 : b.szx ≤ 7) (hl : BlkLen b.szx n)
+    (h3 : b.num * b.size = off) (h5 : b.more = true ↔ off + n < p.length) :
+    reassemble.goR (p.take off) ({ block1 := some b, block2 := hb, size1 := sz1,
+                                   payload := (p.drop off).take n } :: rest)
+      = reassemble.goR (p.take (off + n)) rest := by
+  have hlen : (p.take off).length = off := by rw [List.length_take]; omega
+  have hnot : ¬ (b.more = true ∧ ¬ BlkLen b.szx ((p.drop off).take n).length) := by
+    rintro ⟨hm, hne⟩
+    apply hne
+    rw [slice_len (h5.mp hm)]
+    exact hl
+  conv => lhs; unfold reassemble.goR
+  simp only [show ¬ b.szx > 7 by omega, ↓reduceIte, hlen, h3, ne_eq, not_true_eq_false, hnot]
+  rw [take_append_slice]
+
 /-- the reference reassembly of a cut is a prefix of the payload that reaches at least to the
 end of the last block -/
 theorem Cut.reassemble {p : Bytes} {off s : Nat} {hb : Option BlockOpt} {reqs : List Req} (h : Cut p hb off s reqs)
@@ -248,24 +290,15 @@ theorem Cut.reassemble {p : Bytes} {off s : Nat} {hb : Option BlockOpt} {reqs : 
   induction h with
   | nil off s => exact ⟨off, rfl, Nat.le_refl _⟩
   | whole s => exact ⟨p.length, by simp [reassemble.goR], Nat.zero_le _⟩
-  | @block off s b sz1 rest h1 h2 h3 h4 h5 h6 h7 ih =>
-    have hlen : (p.take off).length = off := by rw [List.length_take]; omega
-    have hnot : ¬ (b.more = true ∧ ((p.drop off).take (blockSize b.szx)).length ≠ blockSize b.szx) := by
-      rintro ⟨hm, hne⟩
-      apply hne
-      rw [List.length_take, List.length_drop]
-      have := h5.mp hm
-      omega
-    unfold reassemble.goR
-    simp only [show ¬ b.szx > 6 by omega, ↓reduceIte, hlen, h3, ne_eq, not_true_eq_false, hnot]
-    rw [take_append_slice]
+  | @block off s n b sz1 rest h1 h2 hl h3 h4 h5 h6 h7 ih =>
+    rw [goR_block hoff h2 hl h3 h5]
     by_cases hm : b.more = true
     · have hlt := h5.mp hm
       obtain ⟨k, hk, hle⟩ := ih (by omega)
       exact ⟨k, hk, by omega⟩
     · have : rest = [] := h6 (by simpa using hm)
       subst this
-      exact ⟨off + blockSize b.szx, by simp [reassemble.goR], by omega⟩
+      exact ⟨off + n, by simp [reassemble.goR], by omega⟩
 
 /-- a request that ends the upload: unfragmented, or a block without the more flag -/
 def FinalReq (r : Req) : Prop := r.block1 = none ∨ ∃ b, r.block1 = some b ∧ b.more = false
@@ -277,17 +310,8 @@ theorem Cut.reassemble_final {p : Bytes} {off s : Nat} {hb : Option BlockOpt} {r
   induction h with
   | nil off s => obtain ⟨r, hr, _⟩ := hfin; cases hr
   | whole s => simp [reassemble.goR]
-  | @block off s b sz1 rest h1 h2 h3 h4 h5 h6 h7 ih =>
-    have hlen : (p.take off).length = off := by rw [List.length_take]; omega
-    have hnot : ¬ (b.more = true ∧ ((p.drop off).take (blockSize b.szx)).length ≠ blockSize b.szx) := by
-      rintro ⟨hm, hne⟩
-      apply hne
-      rw [List.length_take, List.length_drop]
-      have := h5.mp hm
-      omega
-    unfold reassemble.goR
-    simp only [show ¬ b.szx > 6 by omega, ↓reduceIte, hlen, h3, ne_eq, not_true_eq_false, hnot]
-    rw [take_append_slice]
+  | @block off s n b sz1 rest h1 h2 hl h3 h4 h5 h6 h7 ih =>
+    rw [goR_block hoff h2 hl h3 h5]
     by_cases hm : b.more = true
     · have hlt := h5.mp hm
       apply ih (by omega)
@@ -301,7 +325,7 @@ theorem Cut.reassemble_final {p : Bytes} {off s : Nat} {hb : Option BlockOpt} {r
       · exact ⟨r, hr, hf⟩
     · have hrest : rest = [] := h6 (by simpa using hm)
       subst hrest
-      have : ¬ (off + blockSize b.szx < p.length) := fun hc => hm (h5.mpr hc)
+      have : ¬ (off + n < p.length) := fun hc => hm (h5.mpr hc)
       simp only [reassemble.goR]
       rw [List.take_of_length_le (by omega)]
 
@@ -315,7 +339,7 @@ theorem Cut.final_last {p : Bytes} {off s : Nat} {hb : Option BlockOpt} {reqs : 
     cases pre with
     | nil => simp only [List.nil_append, List.cons.injEq] at he; exact he.2.symm
     | cons x pre => simp only [List.cons_append, List.cons.injEq] at he; cases pre <;> cases he.2
-  | @block off s b sz1 rest h1 h2 h3 h4 h5 h6 h7 ih =>
+  | @block off s n b sz1 rest h1 h2 hl h3 h4 h5 h6 h7 ih =>
     intro pre r post he hf
     cases pre with
     | nil =>
@@ -331,26 +355,28 @@ theorem Cut.final_last {p : Bytes} {off s : Nat} {hb : Option BlockOpt} {reqs : 
       simp only [List.cons_append, List.cons.injEq] at he
       exact ih pre r post he.2 hf
 
-/-- every Block1 request of a cut: exponent bounded, carries exactly `payload[start, start+size)`,
-the more flag is set iff bytes remain behind the block -/
+/-- every Block1 request of a cut: exponent bounded, carries exactly `payload[start, start+n)` for
+a block length `n` (one block, BERT: a positive whole number of KiB), the more flag is set iff
+bytes remain behind the block -/
 theorem Cut.each {p : Bytes} {off s : Nat} {hb : Option BlockOpt} {reqs : List Req} (h : Cut p hb off s reqs) :
     ∀ r ∈ reqs, ∀ b, r.block1 = some b →
-      b.szx ≤ s ∧ b.szx ≤ 6 ∧ off ≤ b.start ∧ b.start < p.length ∧
-      r.payload = (p.drop b.start).take b.size ∧
-      (b.more = true ↔ b.start + b.size < p.length) := by
+      b.szx ≤ s ∧ b.szx ≤ 7 ∧ off ≤ b.start ∧
+      (b.start < p.length ∨ (b.start = 0 ∧ p.length = 0)) ∧
+      ∃ n, BlkLen b.szx n ∧ r.payload = (p.drop b.start).take n ∧
+        (b.more = true ↔ b.start + n < p.length) := by
   induction h with
   | nil => intro r hr; cases hr
   | whole s => intro r hr b hb; simp at hr; subst hr; cases hb
-  | @block off s b0 sz1 rest h1 h2 h3 h4 h5 h6 h7 ih =>
+  | @block off s n b0 sz1 rest h1 h2 hl h3 h4 h5 h6 h7 ih =>
     intro r hr b hb
     rcases List.mem_cons.mp hr with rfl | hr
     · simp only [Option.some.injEq] at hb
       subst hb
-      have hst : b0.start = off := by rw [BlockOpt.start, BlockOpt.size_eq h2]; exact h3
-      rw [hst, BlockOpt.size_eq h2]
-      exact ⟨h1, h2, Nat.le_refl _, h4, rfl, h5⟩
-    · obtain ⟨a1, a2, a3, a4, a5, a6⟩ := ih r hr b hb
-      exact ⟨by omega, a2, by omega, a4, a5, a6⟩
+      have hst : b0.start = off := h3
+      rw [hst]
+      exact ⟨h1, h2, Nat.le_refl _, h4, n, hl, rfl, h5⟩
+    · obtain ⟨a1, a2, a3, a4, a5⟩ := ih r hr b hb
+      exact ⟨by omega, a2, by omega, a4, a5⟩
 
 /-- size exponents never grow along a cut -/
 theorem Cut.pairwise {p : Bytes} {off s : Nat} {hb : Option BlockOpt} {reqs : List Req} (h : Cut p hb off s reqs) :
@@ -358,7 +384,7 @@ theorem Cut.pairwise {p : Bytes} {off s : Nat} {hb : Option BlockOpt} {reqs : Li
   induction h with
   | nil => simp
   | whole s => simp
-  | @block off s b0 sz1 rest h1 h2 h3 h4 h5 h6 h7 ih =>
+  | @block off s n b0 sz1 rest h1 h2 hl h3 h4 h5 h6 h7 ih =>
     simp only [List.filterMap_cons, List.pairwise_cons]
     refine ⟨?_, ih⟩
     intro b hb
@@ -371,22 +397,25 @@ theorem Cut.starts {p : Bytes} {off s : Nat} {hb : Option BlockOpt} {reqs : List
   induction h with
   | nil => simp
   | whole s => simp
-  | @block off s b0 sz1 rest h1 h2 h3 h4 h5 h6 h7 ih =>
+  | @block off s n b0 sz1 rest h1 h2 hl h3 h4 h5 h6 h7 ih =>
     simp only [List.filterMap_cons, List.pairwise_cons]
     refine ⟨?_, ih⟩
     intro b hb
     obtain ⟨r, hr, hrb⟩ := List.mem_filterMap.mp hb
     have := (h7.each r hr b hrb).2.2.1
-    have hst : b0.start = off := by rw [BlockOpt.start, BlockOpt.size_eq h2]; exact h3
-    rw [hst, BlockOpt.size_eq h2]
-    exact this
+    have hst : b0.start = off := h3
+    have hun := hl.unit_le h2
+    rw [hst, BlockOpt.size_unit]
+    omega
 
 -- the Block2 loop against truthful slices ----------------------------------------------------------
 
-/-- `r` is the block of `body` its Block2 option says it is -/
+/-- `r` is the block of `body` its Block2 option says it is: the `n` bytes at its offset, `n`
+being the block size (BERT, exponent 7: any number, the message may carry several KiB), with the
+more flag set iff bytes remain behind them -/
 def Truthful (body : Bytes) (r : Resp) : Prop :=
-  ∃ b, r.block2 = some b ∧ r.payload = (body.drop b.start).take b.size ∧
-    (b.more = true ↔ b.start + b.size < body.length)
+  ∃ b n, r.block2 = some b ∧ (b.szx ≠ 7 → n = b.size) ∧ r.payload = (body.drop b.start).take n ∧
+    (b.more = true ↔ b.start + n < body.length)
 
 /-- what the Block2 loop can return: the assembled body, or -- the one exemption -- exactly one
 later response that came WITHOUT a Block2 option ("accepting single response"), taken alone: its
@@ -426,17 +455,17 @@ theorem b2_ok_is_body (cfg : Cfg) (t : Req) (body : Bytes) (rs : List Resp) :
     · simp [hc] at h
     rw [if_neg hc] at h
     have hc' : r.code = a.code := by simpa using hc
-    by_cases hv : b.validFor r.payload.length = true
+    by_cases hv : b.okFor r.payload.length = true
     · by_cases hs : b.start ≠ a.payload.length
       · simp [hv, hs] at h
       · by_cases he : r.etag ≠ a.etag
         · simp [hv, hs, he] at h
         · have hs' : b.start = a.payload.length := by simpa using hs
           have he' : r.etag = a.etag := by simpa using he
-          obtain ⟨b', hb', hpay, hmore⟩ := htr he' hc'
+          obtain ⟨b', n, hb', _, hpay, hmore⟩ := htr he' hc'
           rw [hb] at hb'; cases hb'
           have hlen : a.payload.length = k := by rw [ha, List.length_take]; omega
-          have hnew : a.payload ++ r.payload = body.take (k + b.size) := by
+          have hnew : a.payload ++ r.payload = body.take (k + n) := by
             rw [hpay, hs', hlen, ha, take_append_slice]
           by_cases hm : b.more = true
           · simp only [hv, Bool.not_true, Bool.false_eq_true, ↓reduceIte, hs, he, hm] at h
@@ -446,7 +475,7 @@ theorem b2_ok_is_body (cfg : Cfg) (t : Req) (body : Bytes) (rs : List Resp) :
             unfold enterB2 at h
             split at h
             · simp at h
-            · rcases ih { a with payload := a.payload ++ r.payload, block2 := b } _ (k + b.size)
+            · rcases ih { a with payload := a.payload ++ r.payload, block2 := b } _ (k + n)
                 (by omega) hnew (fun r' hr' => H r' (List.mem_cons_of_mem _ hr')) o h with h' | h'
               · exact Or.inl h'
               · exact Or.inr (h'.cons r)
@@ -457,7 +486,7 @@ theorem b2_ok_is_body (cfg : Cfg) (t : Req) (body : Bytes) (rs : List Resp) :
             simp only
             rw [hnew]
             apply List.take_of_length_le
-            have : ¬ (b.start + b.size < body.length) := fun hc => hm (hmore.mpr hc)
+            have : ¬ (b.start + n < body.length) := fun hc => hm (hmore.mpr hc)
             rw [hs', hlen] at this
             omega
     · simp [hv] at h
@@ -473,7 +502,7 @@ theorem completeBlock2_ok_is_body (cfg : Cfg) (t : Req) (body : Bytes) (initial 
     ∀ o, (go cfg (completeBlock2 cfg t initial) rs).2 = .ok o →
       (o.payload = body ∧ o.etag = initial.etag ∧ o.code = initial.code) ∨ SingleResponse rs o := by
   intro o h
-  obtain ⟨b, hb, hpay, hmore⟩ := h0
+  obtain ⟨b, n, hb, _, hpay, hmore⟩ := h0
   rw [completeBlock2_some hb] at h
   by_cases hst : b.start ≠ 0
   · simp [hst] at h
@@ -487,13 +516,13 @@ theorem completeBlock2_ok_is_body (cfg : Cfg) (t : Req) (body : Bytes) (initial 
   rw [if_neg hg] at h
   by_cases hm : b.more = true
   · have hlt := hmore.mp hm
-    by_cases hv : b.validFor initial.payload.length = true
+    by_cases hv : b.okFor initial.payload.length = true
     · simp only [hm, Bool.not_true, Bool.false_eq_true, ↓reduceIte, hnum, ne_eq, not_true_eq_false,
         hv] at h
       unfold enterB2 at h
       split at h
       · simp at h
-      · exact b2_ok_is_body cfg t body rs _ _ b.size (by omega) hpay H o h
+      · exact b2_ok_is_body cfg t body rs _ _ n (by omega) hpay H o h
     · simp [hm, hnum, hv] at h
   · simp only [hm, Bool.not_false, ↓reduceIte, go_done, Outcome.ok.injEq] at h
     subst h
@@ -501,7 +530,7 @@ theorem completeBlock2_ok_is_body (cfg : Cfg) (t : Req) (body : Bytes) (initial 
     simp only [bodyOf]
     rw [hpay]
     apply List.take_of_length_le
-    have : ¬ (b.size < body.length) := fun hc => hm (hmore.mpr hc)
+    have : ¬ (n < body.length) := fun hc => hm (hmore.mpr hc)
     omega
 
 end Aiocoap.BwClient
